@@ -100,4 +100,25 @@ for kind in ("STR", "PREFIX", "STR_NOACCENT", "PREFIX_NOACCENT"):
       bounded="key <= 10 bytes, list element <= 8 bytes (all byte values); loops unrolled to those lengths",
       functions=["compare_" + kind.lower()], chars=("signed", "unsigned"), props=["C08", "C19"], timeout=900)
 
+for kind, nl in (("STR", 2), ("PREFIX", 2), ("STR_NOACCENT", 4), ("PREFIX_NOACCENT", 7)):
+    U(name="U.cmp." + kind.lower(), harness="harness/cmp_safe.c", mode="H", loops=True, profiles=["cmp"],
+      defines=["CMP_" + kind], functions=["compare_" + kind.lower()], loop_contracts=["compare_" + kind.lower()],
+      expect_loop_obligations=nl, chars=("signed", "unsigned"), props=["C14", "C08", "C19"], timeout=900)
+
+U(name="U.lang.search", harness="harness/lang_search.c", mode="H", loops=True, profiles=["lang_search"],
+  functions=["lang_search"], loop_contracts=["lang_search"], expect_loop_obligations=2, unwind=40, dfcc_loops=True, object_bits=14,
+  props=["C07", "C09", "C14"], timeout=900)
+
+U(name="U.lang.phrase_decode", harness="harness/lang_decode.c", mode="H", defines=["UNIT_AUTO"],
+  profiles=["phrase_decode"], replace_calls=[("lang_search", "stub_lang_search")], object_bits=14,
+  functions=["polyseed_phrase_decode", "polyseed_get_num_langs", "polyseed_get_lang"],
+  exact_loops=[("polyseed_phrase_decode", 0, 10), ("polyseed_phrase_decode", 1, 16), ("polyseed_phrase_decode", 2, 16)],
+  props=["C09", "C01", "C16", "C14"], timeout=900)
+U(name="U.lang.phrase_decode_explicit", harness="harness/lang_decode.c", mode="H", defines=["UNIT_EXPLICIT"],
+  replace_calls=[("lang_search", "stub_lang_search")], object_bits=14,
+  functions=["polyseed_phrase_decode_explicit"], exact_loops=[("polyseed_phrase_decode_explicit", 0, 16)],
+  props=["C09", "C01", "C14"], timeout=900)
+U(name="U.lang.get_comparer", harness="harness/lang_decode.c", mode="H", defines=["UNIT_COMPARER"], object_bits=14,
+  functions=["get_comparer"], props=["C07", "C08"])
+
 BY_NAME = {u.name: u for u in UNITS}
